@@ -182,7 +182,8 @@ func (e *c20Env) goodUpload(nFiles int) string {
 	var parts []upPart
 	want := 0
 	for i := 0; i < nFiles; i++ {
-		parts = append(parts, upPart{"file", fmt.Sprintf("g%d.txt", i), goodFiles[i%len(goodFiles)]})
+		// every second file is sent without a name (allowed): its header and labels carry no upload-file
+		parts = append(parts, upPart{"file", c20GoodName(i), goodFiles[i%len(goodFiles)]})
 		want += countLines(goodFiles[i%len(goodFiles)])
 	}
 	before := e.files()
@@ -232,12 +233,58 @@ func (e *c20Env) goodUpload(nFiles int) string {
 			if !strings.HasSuffix(content, goodFiles[idx%len(goodFiles)]) {
 				return fmt.Sprintf("stored file %q does not end with the uploaded content", name)
 			}
+			// the header is exactly the server's labels of THIS file, then a blank line, then the content
+			head, _, _ := strings.Cut(content, "\n\n")
+			got := map[string]string{}
+			for _, l := range strings.Split(head, "\n") {
+				k, v, _ := strings.Cut(l, ": ")
+				got[k] = v
+			}
+			wantHdr := map[string]string{"upload": id, "upload-part": fmt.Sprintf("%s/%d", id, idx)}
+			if n := c20GoodName(idx); n != "" {
+				wantHdr["upload-file"] = n
+			}
+			for k, v := range got {
+				if k == "upload-time" || k == "by" {
+					continue
+				}
+				if wv, ok := wantHdr[k]; !ok || wv != v {
+					return fmt.Sprintf("stored file %q: header line %q: %q is not a label of this file (want %v)", name, k, v, wantHdr)
+				}
+			}
+			for k, v := range wantHdr {
+				if got[k] != v {
+					return fmt.Sprintf("stored file %q: header lacks %s: %s (header %q)", name, k, v, head)
+				}
+			}
+			if content != head+"\n\n"+goodFiles[idx%len(goodFiles)] {
+				return fmt.Sprintf("stored file %q is not header, blank line, uploaded content:\n%s", name, content)
+			}
 		}
 	}
 	if added != nFiles {
 		return fmt.Sprintf("upload %s of %d files added %d files to the store", id, nFiles, added)
 	}
+	// the records of each file carry that file's labels: asking for a file name returns the named files' lines only
+	for i := 0; i < nFiles; i++ {
+		n := c20GoodName(i)
+		if n == "" {
+			continue
+		}
+		code, body = e.v.get("/search?q=upload%3A" + id + "+upload-file%3A" + n)
+		if got, w := countLines(body), countLines(goodFiles[i%len(goodFiles)]); code != 200 || got != w {
+			return fmt.Sprintf("upload %s: /search for upload-file:%s returns %d results, the file has %d (status %d)", id, n, got, w, code)
+		}
+	}
 	return ""
+}
+
+// c20GoodName: the files of a fault-free upload are called g<i>.txt, except that every second one has no name.
+func c20GoodName(i int) string {
+	if i%2 == 1 {
+		return ""
+	}
+	return fmt.Sprintf("g%d.txt", i)
 }
 
 type c20Fault struct {
